@@ -46,7 +46,16 @@ def main(argv=None):
     c = sub.add_parser("check")
     c.add_argument("prop")
     c.add_argument("--tier", default=os.environ.get("VERIF_TIER", "quick"), choices=["quick", "thorough"])
+    r = sub.add_parser("replay")
+    r.add_argument("path")
     a = ap.parse_args(argv)
+    if a.cmd == "replay":
+        import json
+
+        rec = json.load(open(a.path))
+        print(json.dumps(rec, indent=1)[:3000])
+        sys.setrecursionlimit(10000)
+        return run_check(rec["property"], "quick", 0)
     seed = int(os.environ.get("VERIF_SEED", "0") or 0)
     sys.setrecursionlimit(10000)
     return run_check(a.prop.upper(), a.tier, seed)
